@@ -5,8 +5,9 @@
    (padding multiple, loca version), FixComponents changes only the glyphIndex fields; GlyfLoca.cfg: the
    layout function on size vectors at the 64 KiB / 128 KiB boundaries with real sizes.
 2. R: TLC enumerates shapes (simple glyphs: every flag byte x run/repeat form x contour split x
-   instructions x padding x loca version, zero contours, 1/256 points; composite glyphs: 1..3 components in
-   every argument/transform size combination, with/without instructions; glyph sets over a palette; glyph
+   instructions x padding x loca version, zero contours, 1/256 points, zero short/long deltas; composite
+   glyphs: chains of 1..4 records, each record independently over argument size x transform size x
+   WE_HAVE_INSTRUCTIONS, numberOfContours over {-1,-2,-3,-128,-32768}; glyph sets over a palette; glyph
    sets of exactly 131070 / 131072 ... bytes) and prints the SPEC's encoding as bytes.  The harness feeds
    them to glyf.Decode, Glyphs.Encode, glyf.Decode, SimpleGlyph.Decode, Components, FixComponents and
    records one event per call.
@@ -205,7 +206,7 @@ def _lib_cases(ctx):
         {"n": 1, "target": 0, "seed": s + 1, "nilevery": 0, "compodds": 0, "zerobare": 0},
         {"n": 2, "target": 0, "seed": s + 2, "nilevery": 0, "compodds": 0, "zerobare": 0},
         {"n": 7, "target": 0, "seed": s + 3, "nilevery": 0, "compodds": 3, "zerobare": 0},
-        {"n": 60, "target": 0, "seed": s + 4, "nilevery": 0, "compodds": 5, "zerobare": 0},
+        {"n": 60, "target": 0, "seed": s + 4, "nilevery": 0, "compodds": 3, "zerobare": 0},
         {"n": 40, "target": 0, "seed": s + 5, "nilevery": 3, "compodds": 4, "zerobare": 0},
         {"n": 5, "target": 0, "seed": s + 6, "nilevery": 0, "compodds": 0, "zerobare": 1},
         {"n": 9, "target": 0, "seed": s + 7, "nilevery": 0, "compodds": 0, "zerobare": 2},
@@ -252,7 +253,9 @@ def run(ctx):
     ctx.assumptions += [
         "inputs are valid encodings by the OpenType glyf/loca chapters as transcribed in GlyfOps.tla; "
         "coordinates stay inside int16, loca offsets are even, endPtsOfContours strictly increase, at most one "
-        "transform flag per component, WE_HAVE_INSTRUCTIONS on the last (or every) component",
+        "transform flag per component; when WE_HAVE_INSTRUCTIONS is set on an earlier record but not on the last, "
+        "both readings (last record decides / any record decides) are accepted for a decoder, but Encode -> Decode "
+        "of an in-memory glyph must still return its instructions",
         "FixComponents is called with maps that are total on the glyph's component ids",
         "padding kept in a simple glyph's body by the decoder would be accepted (the property does not forbid it)",
         "a header-only zero-contour glyph and one with instructionLength = 0 are identified (format ambiguity "
@@ -274,7 +277,7 @@ def run(ctx):
         ("simple-sim", _cfg("simple", salt, runs=ctx.pick(4, 6), with256=False), ctx.pick(60, 600), 12, 100),
         ("simple-sim256", _cfg("simple", salt, runs=ctx.pick(3, 4), with256=True), ctx.pick(12, 120), 12, 50),
         ("comp-2", _cfg("comp", salt, comps=2), None, None, 500),
-        ("comp-3", _cfg("comp", salt, comps=3, full=False), None, None, 500),
+        ("comp-sim", _cfg("comp", salt, comps=4), ctx.pick(60, 900), 8, 100),
         ("set-2", _cfg("set", salt, glyphs=2), None, None, 300),
         ("set-sim", _cfg("set", salt, glyphs=ctx.pick(4, 6)), ctx.pick(120, 1500), 12, 100),
         # call histories: Decode, then every sequence of Fix / Put / Components / Encode / Decode
@@ -287,7 +290,7 @@ def run(ctx):
     if not quick:
         gens += [
             ("simple-2runs", _cfg("simple", salt, runs=2, full=False, with256=True), None, None, 10000),
-            ("comp-3-full", _cfg("comp", salt, comps=3), None, None, 5000),
+            ("comp-3", _cfg("comp", salt, comps=3, full=False), None, None, 3000),
             ("set-3", _cfg("set", salt, glyphs=3), None, None, 3000),
         ]
     for name, cfg, sim, depth, expect in gens:
@@ -311,10 +314,13 @@ def run(ctx):
                 "16777216}" % ctx.pick(4, 5),
         "library-built sets": "incl. exactly 65534 and 65535 glyphs and glyf tables of about 1.2 MB and 16.8 MB "
                               "(above 2^24: every byte of the long loca entry is non-zero somewhere)",
-        "simple glyphs": "all 32 flag bytes x {1,1r,2,2r,3r,256r} runs, 1 run exhaustive with every finish choice"
+        "simple glyphs": "all 32 flag bytes x {1,1r,2,2r,3r,256r, 1 and 2r with all-zero deltas} runs, 1 run exhaustive with every finish choice"
                          + ("" if quick else ", 2 runs exhaustive (one finish per shape)")
                          + ", longer run lists by simulation",
-        "composite glyphs": "1..3 components, argument size x transform size exhaustive",
+        "composite glyphs": "every record independently: argument size x transform size x WE_HAVE_INSTRUCTIONS "
+                            "(other bits by seed); chains of 1..2 exhaustive with every instruction/trailing-"
+                            "bytes/padding choice" + ("" if quick else ", 3 exhaustive (one finish per shape)")
+                            + ", up to 4 by simulation; numberOfContours over {-1,-2,-3,-128,-32768}",
     }
 
     # ---- collect the cases
